@@ -513,7 +513,9 @@ impl<D: Dispatcher> Conn<D> {
         // Handle pong message
         if let Message::Pong(params) = &msg {
           if let Some(notifier) = &self.pong_notifier {
-            notifier.send(params.id).await?;
+            // Never wait for room in the one-slot mailbox: a surplus (unsolicited) PONG is dropped
+            // instead of stalling the whole connection loop.
+            let _ = notifier.try_send(params.id);
           }
           return Ok(());
         }
